@@ -651,7 +651,8 @@ func (c *Cmd) parse(args []string, entry, inFlow, outFlow *flow.Step) error {
 	helpIndex := c.helpIndex(args)
 	nargsLen := c.getOptsAndArgs(args)
 
-	if helpIndex >= 0 && helpIndex < nargsLen {
+	// (<=: a sub command may itself be named -h or --help; the token is then a help request for this command)
+	if helpIndex >= 0 && helpIndex <= nargsLen {
 		c.PrintLongHelp()
 		c.onError(errHelpRequested)
 		return nil
